@@ -36,6 +36,8 @@ import (
 //	imp:<v>:<c>:<big|small>    voter v impeaches council member c
 //	prop:<P>:<c>               normal proposal P (3 budget stages) sponsored by council member c
 //	propbig:<P>:<c>            the same with a budget above 10 % of the committee's funds
+//	propni:<P>:<c>             normal proposal without imprest (stages 1, 2, 3)
+//	propoo:<P>:<c>             normal proposal whose budgets are listed out of stage order
 //	elip:<P>:<c>               ELIP proposal (imprest + final)
 //	sg:<P>:<c>                 secretary-general proposal (new SG key sg2)
 //	close:<P>:<T>:<c>          proposal P closing proposal T
@@ -119,6 +121,14 @@ func (w *World) propTx(kind, label, sponsor string, target string) (Tx, error) {
 	switch kind {
 	case "prop":
 		return ProposalNormal(label, payload.Normal, own, m, own.Addr, Budget3(10*ELA, 20*ELA, 30*ELA)), nil
+	case "propni": // no imprest: stages 1, 2 (normal payments) and 3 (final)
+		return ProposalNormal(label, payload.Normal, own, m, own.Addr, []payload.Budget{
+			{Type: payload.NormalPayment, Stage: 1, Amount: 10 * ELA}, {Type: payload.NormalPayment, Stage: 2, Amount: 20 * ELA},
+			{Type: payload.FinalPayment, Stage: 3, Amount: 30 * ELA}}), nil
+	case "propoo": // the three usual stages, listed out of stage order in the payload
+		return ProposalNormal(label, payload.Normal, own, m, own.Addr, []payload.Budget{
+			{Type: payload.FinalPayment, Stage: 2, Amount: 30 * ELA}, {Type: payload.Imprest, Stage: 0, Amount: 10 * ELA},
+			{Type: payload.NormalPayment, Stage: 1, Amount: 20 * ELA}}), nil
 	case "propbig": // asks for more than a tenth of what the committee may spend in this term
 		a := (w.C.CRCCurrentStageAmount-w.C.CommitteeUsedAmount)/10 + ELA
 		return ProposalNormal(label, payload.Normal, own, m, own.Addr, Budget3(a/4, a/4, a/2)), nil
@@ -243,7 +253,7 @@ func (w *World) build(op string) ([]Tx, error) {
 			return nil, err
 		}
 		return []Tx{VoteTx(K(arg(1)), w.voteOut[arg(1)], outputpayload.CRCImpeachment, []CV{{K(arg(2)).CID.Bytes(), a}}, a, n)}, nil
-	case "prop", "elip", "sg", "propbig":
+	case "prop", "elip", "sg", "propbig", "propni", "propoo":
 		tx, err := w.propTx(f[0], arg(1), arg(2), "")
 		if err != nil {
 			return nil, err
@@ -303,7 +313,11 @@ func (w *World) build(op string) ([]Tx, error) {
 		case payload.Progress, payload.Rejected:
 			stage = 1
 		case payload.Finalized:
-			stage = uint8(len(ps.Proposal.Budgets) - 1)
+			for _, b := range ps.Proposal.Budgets {
+				if b.Type == payload.FinalPayment {
+					stage = b.Stage
+				}
+			}
 		}
 		if arg(3) != "" {
 			s, err := strconv.Atoi(arg(3))
